@@ -4,6 +4,7 @@ use crate::cache::cache::{
 };
 use crate::cache::error::{CacheError, Result};
 use crate::server::timer;
+use dashmap::mapref::entry::Entry;
 use dashmap::mapref::multiple::RefMulti;
 use dashmap::{DashMap, ReadOnlyView};
 use std::sync::atomic::{AtomicU64, Ordering};
@@ -83,23 +84,23 @@ impl Cache for MemoryStore {
     fn set(&self, key: KeyType, mut record: Record) -> Result<SetStatus> {
         //trace!("Set: {:?}", &record.header);
         if record.header.cas > 0 {
-            match self.memory.get_mut(&key) {
-                Some(mut key_value) => {
-                    if key_value.header.cas != record.header.cas {
+            match self.memory.entry(key) {
+                Entry::Occupied(mut key_value) => {
+                    if key_value.get().header.cas != record.header.cas {
                         Err(CacheError::KeyExists)
                     } else {
                         record.header.cas = self.get_cas_id();
                         record.header.timestamp = self.timer.timestamp();
                         let cas = record.header.cas;
-                        *key_value = record;
+                        key_value.insert(record);
                         Ok(SetStatus { cas })
                     }
                 }
-                None => {
+                Entry::Vacant(slot) => {
                     record.header.cas = record.header.cas.saturating_add(1);
                     record.header.timestamp = self.timer.timestamp();
                     let cas = record.header.cas;
-                    self.memory.insert(key, record);
+                    slot.insert(record);
                     Ok(SetStatus { cas })
                 }
             }
